@@ -38,7 +38,9 @@ fn fp_ext<U: User, E: Engine<U>>(ext: &SMap<U, E>) -> Vec<(Fp, Fp)> {
 }
 
 impl User for CountingUser {
-    type UserTerm = ();
+    /// opaque user terms; the `unify` hook is left at its default, as a user type that only
+    /// counts constraints would
+    type UserTerm = u8;
     type UserContext = ();
 
     fn process_extension<E: Engine<Self>>(mut state: State<Self, E>, extension: &SMap<Self, E>) -> SResult<Self, E> {
@@ -396,6 +398,88 @@ fn check(p: &Program, index: usize, d: usize) -> (Vec<Violation>, u64, bool) {
     (viols, ex.schedules, had_constraints)
 }
 
+/// User terms (`LTerm::user`): a pair of non-variable terms one of which is a user term is handed
+/// to the `unify` hook, whose documented default refuses — so with a user type that leaves the
+/// hook alone a user term unifies with variables only (not even with itself). Hand-written
+/// programs over two user terms p, q with the outcome each must have (answers, and
+/// `with - take == store size == expected` in every final state).
+fn user_term_family(ctx: &mut Ctx) -> u64 {
+    use proto_vulcan::GoalCast;
+    type L = LTerm<CU, CE>;
+    fn eq(a: L, b: L) -> Goal<CU, CE> {
+        proto_vulcan::relation::eq::<CU, CE, Goal<CU, CE>>(a, b).cast_into()
+    }
+    fn diseq(a: L, b: L) -> Goal<CU, CE> {
+        proto_vulcan::relation::diseq::<CU, CE, Goal<CU, CE>>(a, b).cast_into()
+    }
+    let mk_cases = || -> Vec<(&'static str, Box<dyn Fn(&L, &L, &L, &L) -> Vec<Goal<CU, CE>>>, usize, usize)> {
+        let l2 = |a: &L, b: &L| -> L { L::from_vec(vec![a.clone(), b.clone()]) };
+        vec![
+            ("p == p", Box::new(|_x, _y, p, _q| vec![eq(p.clone(), p.clone())]), 0, 0),
+            ("p == q", Box::new(|_x, _y, p, q| vec![eq(p.clone(), q.clone())]), 0, 0),
+            ("x == p, x == q", Box::new(|x, _y, p, q| vec![eq(x.clone(), p.clone()), eq(x.clone(), q.clone())]), 0, 0),
+            ("x == p, x == p", Box::new(|x, _y, p, _q| vec![eq(x.clone(), p.clone()), eq(x.clone(), p.clone())]), 0, 0),
+            ("[x, p] == [1, q]", Box::new(move |x, _y, p, q| vec![eq(l2(x, p), l2(&L::from(1isize), q))]), 0, 0),
+            ("[x, p] == [1, p]", Box::new(move |x, _y, p, _q| vec![eq(l2(x, p), l2(&L::from(1isize), p))]), 0, 0),
+            ("[x, p] != [1, q], x == 1", Box::new(move |x, _y, p, q| vec![diseq(l2(x, p), l2(&L::from(1isize), q)), eq(x.clone(), L::from(1isize))]), 1, 0),
+            ("[x, p] != [1, p], x == 1", Box::new(move |x, _y, p, _q| vec![diseq(l2(x, p), l2(&L::from(1isize), p)), eq(x.clone(), L::from(1isize))]), 1, 0),
+            ("[x, p] != [1, p]", Box::new(move |x, _y, p, _q| vec![diseq(l2(x, p), l2(&L::from(1isize), p))]), 1, 0),
+            ("x != p, x == q", Box::new(|x, _y, p, q| vec![diseq(x.clone(), p.clone()), eq(x.clone(), q.clone())]), 1, 0),
+            ("x != p, x == p", Box::new(|x, _y, p, _q| vec![diseq(x.clone(), p.clone()), eq(x.clone(), p.clone())]), 1, 0),
+            ("x != p, y != q", Box::new(|x, y, p, q| vec![diseq(x.clone(), p.clone()), diseq(y.clone(), q.clone())]), 1, 2),
+            ("p != q", Box::new(|_x, _y, p, q| vec![diseq(p.clone(), q.clone())]), 1, 0),
+            ("p != p", Box::new(|_x, _y, p, _q| vec![diseq(p.clone(), p.clone())]), 1, 0),
+        ]
+    };
+    let n = mk_cases().len();
+    let sel: Vec<usize> = match &ctx.replay {
+        Some(r) if r.family == "c22-user-terms" => vec![r.index],
+        Some(_) => vec![],
+        None => (0..n).collect(),
+    };
+    let res: Vec<Option<Violation>> = par_map(&sel, |_, i| {
+        crate::ev::progress("c22-user-terms", *i, &Value::Null);
+        let cases = mk_cases();
+        let (text, build, want_answers, want_store) = &cases[*i];
+        let mk = |kind: &str, detail: String, site: String| Some(Violation { kind: kind.into(), sig: text.to_string(), site, detail, family: "c22-user-terms".into(), index: *i, schedule: vec![], data: Value::Null });
+        let r = guarded(|| {
+            let (x, y): (L, L) = (LTerm::var("x"), LTerm::var("y"));
+            let (p, q): (L, L) = (LTerm::user(1u8), LTerm::user(2u8));
+            let goal: Goal<CU, CE> = proto_vulcan::operator::conj::Conj::from_vec(build(&x, &y, &p, &q));
+            let mut solver: Solver<CU, CE> = Solver::new((), false);
+            let mut stream = solver.start(&goal, State::new(CountingUser::default()));
+            let mut finals = vec![];
+            while let Some(st) = solver.next(&mut stream) {
+                finals.push((st.user_state.with, st.user_state.take, store_size(&st)));
+                if finals.len() > 10 {
+                    break;
+                }
+            }
+            finals
+        });
+        match r {
+            Err(End::Panic(m)) => mk("panic", m.clone(), panic_site(&m)),
+            Err(e) => mk("no-termination", format!("{:?}", e), String::new()),
+            Ok(finals) => {
+                if finals.len() != *want_answers {
+                    return mk("user-term-answers", format!("{} answer(s), expected {} (with the default unify hook a user term unifies with variables only)", finals.len(), want_answers), String::new());
+                }
+                for (w, t, sz) in finals {
+                    if (w as i64 - t as i64) != sz as i64 || sz != *want_store {
+                        return mk("constraint-count", format!("with_constraint {} - take_constraint {} vs {} stored constraint(s), expected {}", w, t, sz, want_store), String::new());
+                    }
+                }
+                None
+            }
+        }
+    });
+    for v in res.into_iter().flatten() {
+        ctx.violation(v);
+    }
+    ctx.hist("user-term-programs", sel.len() as u64);
+    sel.len() as u64
+}
+
 pub fn run(ctx: &mut Ctx) {
     let quick = ctx.quick();
     let d = if quick { 1 } else { 2 };
@@ -424,7 +508,8 @@ pub fn run(ctx: &mut Ctx) {
     for p in progs.iter().step_by((progs.len() / 4).max(1)).take(4) {
         ctx.sample(json!({"program": p.to_string()}));
     }
-    ctx.set("evaluations", json!(schedules));
+    let ut = user_term_family(ctx);
+    ctx.set("evaluations", json!(schedules + ut));
     ctx.set("schedules", json!(schedules));
     ctx.set("programs", json!(sel.len()));
     ctx.set("states", json!(sel.len()));
